@@ -1,6 +1,7 @@
 package props
 
 import (
+	"bytes"
 	"fmt"
 	"os"
 	"strings"
@@ -33,6 +34,11 @@ func genC04(t *rapid.T) caseProg {
 	if gen.Chance(t, 30, "similartypes") {
 		// block types that differ only by case and underscores are different types
 		cfg.Types = []string{"s", "S", "s_", "t", "T_"}
+	} else if gen.Chance(t, 30, "typesarenames") {
+		// block types that are also names of variables in scope: the bind
+		// statement names the type, never the variable
+		cfg.Types = []string{"a", "b", "s"}
+		cfg.WVar = 25
 	}
 	return genCaseProg(t, cfg, gen.LayoutOpts{Plain: 95})
 }
@@ -59,7 +65,42 @@ func nontrivialC04(c caseProg, o *ref.Outcome, sh *progShape) bool {
 	return multi || len(types) >= 2 || sh.bindAfterDef || sh.binds >= 2
 }
 
-func TestC04(t *testing.T) { runProgProperty(t, "C04", genC04, nontrivialC04, nil) }
+// extraC04: the binding, the error and the warnings on the log writer are
+// those of the bind statements executed, whichever way the program is run:
+// compiled and executed separately, from bytecode, traced.
+func extraC04(c caseProg, o *ref.Outcome, a actual) string {
+	if o.Compile != nil {
+		return ""
+	}
+	pr := parseWhole(c.Src, "n")
+	if pr.err != nil || pr.pan != nil {
+		return ""
+	}
+	for _, via := range []string{"load", "load+trace"} {
+		var out, log bytes.Buffer
+		p, lerr, pan := loadProg(bytes.NewReader(pr.dump), "n", bcl.OptOutput(&out), bcl.OptLogger(&log))
+		if lerr != nil || pan != nil {
+			return fmt.Sprintf("%s: LoadProg of the program's own dump failed: %v %v", via, lerr, pan)
+		}
+		var xopts []bcl.Option
+		if via == "load+trace" {
+			xopts = []bcl.Option{bcl.OptTrace(true), bcl.OptStats(true)}
+		}
+		b := executeWith(p, &out, &log, xopts...)
+		if b.Panic != nil {
+			return fmt.Sprintf("%s: Execute panicked: %v", via, b.Panic)
+		}
+		if n := strings.Count(b.Log, "WARNING:"); n != len(o.Warnings) {
+			return fmt.Sprintf("run %s: %d warnings on the log writer, %d bind statements after the first were executed; log=%q", via, n, len(o.Warnings), b.Log)
+		}
+		if (b.Err == nil) != (a.Err == nil) || !eqBinding(a.Binding, b.Binding) {
+			return fmt.Sprintf("run %s: binding %#v error %v; Interpret gave binding %#v error %v", via, b.Binding, b.Err, a.Binding, a.Err)
+		}
+	}
+	return ""
+}
+
+func TestC04(t *testing.T) { runProgProperty(t, "C04", genC04, nontrivialC04, extraC04) }
 func TestReplayC04(t *testing.T) {
 	replayOnly(t)
 	var c caseProg
